@@ -80,6 +80,9 @@ type Env struct {
 	nmu        sync.Mutex
 	notifs     []Notif
 	sinkStatus int
+	// SinkHook, when set, runs while the consumer handles a notification, before it answers (a consumer that re-authorises
+	// from inside its notification handler)
+	SinkHook func(n Notif)
 }
 
 type EnvOpts struct {
@@ -242,7 +245,11 @@ func StartEnv(o EnvOpts) (*Env, error) {
 		e.nmu.Lock()
 		e.notifs = append(e.notifs, n)
 		st := e.sinkStatus
+		hook := e.SinkHook
 		e.nmu.Unlock()
+		if hook != nil {
+			hook(n)
+		}
 		if st == 0 {
 			st = http.StatusNoContent
 		}
